@@ -218,9 +218,74 @@ func checkChunkFlushGuard(p *Program, r *Result) {
 				}
 			}
 		}
+		if !(okFull && okMore) {
+			// not as two explicit tests: let the arithmetic decide (a copy that left input over
+			// has filled its destination)
+			okFull, okMore = flushGuardByArithmetic(p, write, c)
+		}
 		r.Check(okFull && okMore, write.String(), callKey("flushChunk", i), r.pos(c), "under len(w.unwritten) == ChunkSize && len(p[n:]) > 0", "flushChunk(notLast) is not guarded by a full buffer AND pending input: a full final chunk would be emitted as non-final (changing the chunking of 64 KiB-multiple files depending on how writes are split)")
 	}
 	if n == 0 {
 		r.Bad(pkgStream, "call:flushChunk", "", "no non-final flush found: a stream longer than one chunk could not be written")
 	}
+}
+
+// flushGuardByArithmetic: at the call c (a non-final flush in write), the facts in force imply
+// that the buffered data is exactly one chunk and that input remains.
+func flushGuardByArithmetic(p *Program, write *ssa.Function, c ssa.CallInstruction) (full, more bool) {
+	tb := p.TB(write)
+	in := c.(ssa.Instruction)
+	s := tb.system(in)
+	// the buffered data: the last store to the receiver's unwritten field before the call
+	var st *ssa.Store
+	for _, b := range write.Blocks {
+		for _, x := range b.Instrs {
+			y, ok := x.(*ssa.Store)
+			if !ok {
+				continue
+			}
+			fa, ok := y.Addr.(*ssa.FieldAddr)
+			if !ok || fieldName(fa.X.Type(), fa.Field) != "unwritten" || structTypeName(fa.X.Type()) != pkgStream+".Writer" {
+				continue
+			}
+			if dominatesInstr(y, in) && !tb.fieldWrittenBetween(y, in, fieldKey(fa)) && (st == nil || dominatesInstr(st, y)) {
+				st = y
+			}
+		}
+	}
+	if st != nil {
+		ls, lc, _ := tb.lenSym(st.Val)
+		full = (s.implied(ls, "0", 65536-lc) || s.linImplied(ls, "0", 65536-lc)) && (s.implied("0", ls, lc-65536) || s.linImplied("0", ls, lc-65536))
+	}
+	// the remaining input: what the loop carries on with from here
+	for _, l := range naturalLoops(write) {
+		if !l.Blocks[c.Block()] {
+			continue
+		}
+		for _, hi := range l.Header.Instrs {
+			ph, ok := hi.(*ssa.Phi)
+			if !ok {
+				break
+			}
+			fromParam := false
+			for _, e := range ph.Edges {
+				if len(write.Params) > 1 && stripConv(e) == ssa.Value(write.Params[1]) {
+					fromParam = true
+				}
+			}
+			if !fromParam {
+				continue
+			}
+			for k, pr := range l.Header.Preds {
+				if !l.Blocks[pr] || !(pr == c.Block() || c.Block().Dominates(pr)) {
+					continue
+				}
+				ls, lc, _ := tb.lenSym(ph.Edges[k])
+				if s.implied("0", ls, lc-1) || s.linImplied("0", ls, lc-1) {
+					more = true
+				}
+			}
+		}
+	}
+	return full, more
 }
